@@ -1,13 +1,408 @@
-// Package litmus holds tiny programs over sync, sync/atomic, time, context and channels. The same source is
-// compiled natively (real packages) and, through vinst, against the shims; the sets of outcomes must agree.
+// Package litmus holds tiny programs over sync, sync/atomic, context and channels. The same source is
+// compiled natively (real packages) and, through vinst, against the shims: the explorer enumerates every
+// schedule of each program and the set of outcomes must equal the hand-derived allowed set; every outcome
+// observed natively must be in it too. This binds the only hand-written model (the shim layer) to Go.
 package litmus
+
+import (
+	"context"
+	"fmt"
+	"sync"
+	"sync/atomic"
+)
 
 // Program is one litmus test. Run returns an outcome string.
 type Program struct {
-	Name    string
-	Run     func() string
-	Allowed []string // hand-derived set of allowed outcomes
-	Hangs   bool     // may deadlock (explorer reports "deadlock"; not run natively)
+	Name     string
+	Run      func() string
+	Allowed  []string // hand-derived set of allowed outcomes ("deadlock" = main never returns)
+	Hangs    bool     // may deadlock: not run natively
+	ShimOnly bool     // not meaningful natively (unrecoverable fatal error)
 }
 
-var Programs []Program
+func catch(f func() string) (out string) {
+	defer func() {
+		if r := recover(); r != nil {
+			out = fmt.Sprint("panic: ", r)
+		}
+	}()
+	return f()
+}
+
+var Programs = []Program{
+	{Name: "mutex-exclusion", Allowed: []string{"2"}, Run: func() string {
+		var mu sync.Mutex
+		var wg sync.WaitGroup
+		x := 0
+		for i := 0; i < 2; i++ {
+			wg.Add(1)
+			go func() { defer wg.Done(); mu.Lock(); v := x; x = v + 1; mu.Unlock() }()
+		}
+		wg.Wait()
+		return fmt.Sprint(x)
+	}},
+	{Name: "atomic-lost-update", Allowed: []string{"1", "2"}, Run: func() string {
+		var x atomic.Uint32
+		var wg sync.WaitGroup
+		for i := 0; i < 2; i++ {
+			wg.Add(1)
+			go func() { defer wg.Done(); x.Store(x.Load() + 1) }()
+		}
+		wg.Wait()
+		return fmt.Sprint(x.Load())
+	}},
+	{Name: "atomic-add", Allowed: []string{"2"}, Run: func() string {
+		var x atomic.Uint32
+		var wg sync.WaitGroup
+		for i := 0; i < 2; i++ {
+			wg.Add(1)
+			go func() { defer wg.Done(); x.Add(1) }()
+		}
+		wg.Wait()
+		return fmt.Sprint(x.Load())
+	}},
+	{Name: "atomic-add-wraps", Allowed: []string{"0"}, Run: func() string {
+		var x atomic.Uint32
+		x.Add(1)
+		return fmt.Sprint(x.Add(^uint32(0)))
+	}},
+	{Name: "cas-one-winner", Allowed: []string{"1"}, Run: func() string {
+		var x, wins atomic.Uint32
+		var wg sync.WaitGroup
+		for i := 0; i < 2; i++ {
+			wg.Add(1)
+			go func() {
+				defer wg.Done()
+				if x.CompareAndSwap(0, 1) {
+					wins.Add(1)
+				}
+			}()
+		}
+		wg.Wait()
+		return fmt.Sprint(wins.Load())
+	}},
+	{Name: "store-buffering-sc", Allowed: []string{"0 1", "1 0", "1 1"}, Run: func() string {
+		var x, y atomic.Uint32
+		var r1, r2 uint32
+		var wg sync.WaitGroup
+		wg.Add(2)
+		go func() { defer wg.Done(); x.Store(1); r1 = y.Load() }()
+		go func() { defer wg.Done(); y.Store(1); r2 = x.Load() }()
+		wg.Wait()
+		return fmt.Sprint(r1, r2)
+	}},
+	{Name: "rwmutex-writer-atomic", Allowed: []string{"0 0", "1 1"}, Run: func() string {
+		var mu sync.RWMutex
+		a, b := 0, 0
+		out := ""
+		var wg sync.WaitGroup
+		wg.Add(2)
+		go func() { defer wg.Done(); mu.Lock(); a = 1; b = 1; mu.Unlock() }()
+		go func() { defer wg.Done(); mu.RLock(); out = fmt.Sprint(a, b); mu.RUnlock() }()
+		wg.Wait()
+		return out
+	}},
+	{Name: "rwmutex-readers-share", Allowed: []string{"ok"}, Run: func() string {
+		var mu sync.RWMutex
+		in := make(chan struct{}, 1)
+		done := make(chan struct{}, 1)
+		mu.RLock()
+		go func() { mu.RLock(); in <- struct{}{}; mu.RUnlock(); done <- struct{}{} }()
+		<-in // the second reader got in while the first still holds the read lock
+		mu.RUnlock()
+		<-done
+		return "ok"
+	}},
+	{Name: "cond-correct", Allowed: []string{"ok"}, Run: func() string {
+		var mu sync.Mutex
+		c := sync.NewCond(&mu)
+		flag := false
+		go func() { mu.Lock(); flag = true; mu.Unlock(); c.Broadcast() }()
+		mu.Lock()
+		for !flag {
+			c.Wait()
+		}
+		mu.Unlock()
+		return "ok"
+	}},
+	{Name: "cond-lost-wakeup", Hangs: true, Allowed: []string{"ok", "deadlock"}, Run: func() string {
+		// the signaller does not take the lock: a Broadcast between the check and Wait is lost
+		var mu sync.Mutex
+		c := sync.NewCond(&mu)
+		var flag atomic.Bool
+		go func() { flag.Store(true); c.Broadcast() }()
+		mu.Lock()
+		for !flag.Load() {
+			c.Wait()
+		}
+		mu.Unlock()
+		return "ok"
+	}},
+	{Name: "cond-ticket-before-unlock", Allowed: []string{"ok"}, Run: func() string {
+		// Wait takes its ticket while L is held: a Broadcast by anyone who acquired L afterwards is not lost
+		var mu sync.Mutex
+		c := sync.NewCond(&mu)
+		mu.Lock()
+		go func() { mu.Lock(); mu.Unlock(); c.Broadcast() }()
+		c.Wait()
+		mu.Unlock()
+		return "ok"
+	}},
+	{Name: "cond-signal-one", Allowed: []string{"1"}, Run: func() string {
+		// Signal wakes exactly one of two waiters; main waits for one completion only
+		var mu sync.Mutex
+		c := sync.NewCond(&mu)
+		woke := make(chan int, 2)
+		ready := make(chan struct{}, 2)
+		for i := 0; i < 2; i++ {
+			go func() { mu.Lock(); ready <- struct{}{}; c.Wait(); mu.Unlock(); woke <- 1 }()
+		}
+		<-ready
+		<-ready
+		mu.Lock() // both have taken their tickets once we hold the lock after their ready sends... (they are in Wait)
+		mu.Unlock()
+		c.Signal()
+		n := <-woke
+		return fmt.Sprint(n)
+	}},
+	{Name: "waitgroup-release", Allowed: []string{"2"}, Run: func() string {
+		var wg sync.WaitGroup
+		var n atomic.Uint32
+		wg.Add(2)
+		go func() { n.Add(1); wg.Done() }()
+		go func() { n.Add(1); wg.Done() }()
+		wg.Wait()
+		return fmt.Sprint(n.Load())
+	}},
+	{Name: "waitgroup-negative", Allowed: []string{"panic: sync: negative WaitGroup counter"}, Run: func() string {
+		return catch(func() string {
+			var wg sync.WaitGroup
+			wg.Add(1)
+			wg.Done()
+			wg.Done()
+			return "no panic"
+		})
+	}},
+	{Name: "waitgroup-many-waiters", Allowed: []string{"ok"}, Run: func() string {
+		var wg, outer sync.WaitGroup
+		wg.Add(1)
+		outer.Add(2)
+		for i := 0; i < 2; i++ {
+			go func() { wg.Wait(); outer.Done() }()
+		}
+		wg.Done()
+		outer.Wait()
+		return "ok"
+	}},
+	{Name: "chan-buffered-order", Allowed: []string{"1 2"}, Run: func() string {
+		ch := make(chan int, 1)
+		go func() { ch <- 1; ch <- 2 }()
+		a := <-ch
+		b := <-ch
+		return fmt.Sprint(a, b)
+	}},
+	{Name: "chan-closed-receive", Allowed: []string{"1 true 0 false"}, Run: func() string {
+		ch := make(chan int, 1)
+		ch <- 1
+		close(ch)
+		a, ok1 := <-ch
+		b, ok2 := <-ch
+		return fmt.Sprint(a, ok1, b, ok2)
+	}},
+	{Name: "chan-range-until-close", Allowed: []string{"3"}, Run: func() string {
+		ch := make(chan int, 2)
+		go func() { ch <- 1; ch <- 2; close(ch) }()
+		s := 0
+		for v := range ch {
+			s += v
+		}
+		return fmt.Sprint(s)
+	}},
+	{Name: "chan-send-on-closed", Allowed: []string{"panic: send on closed channel"}, Run: func() string {
+		return catch(func() string {
+			ch := make(chan int, 1)
+			close(ch)
+			ch <- 1
+			return "no panic"
+		})
+	}},
+	{Name: "chan-close-closed", Allowed: []string{"panic: close of closed channel"}, Run: func() string {
+		return catch(func() string {
+			ch := make(chan int, 1)
+			close(ch)
+			close(ch)
+			return "no panic"
+		})
+	}},
+	{Name: "chan-close-nil", Allowed: []string{"panic: close of nil channel"}, Run: func() string {
+		return catch(func() string {
+			var ch chan int
+			close(ch)
+			return "no panic"
+		})
+	}},
+	{Name: "chan-close-wakes-receiver", Allowed: []string{"0 false"}, Run: func() string {
+		ch := make(chan int)
+		go func() { close(ch) }()
+		v, ok := <-ch
+		return fmt.Sprint(v, ok)
+	}},
+	{Name: "select-default-nil", Allowed: []string{"default"}, Run: func() string {
+		var ch chan int
+		select {
+		case ch <- 1:
+			return "sent"
+		default:
+			return "default"
+		}
+	}},
+	{Name: "select-default-full", Allowed: []string{"sent default"}, Run: func() string {
+		ch := make(chan int, 1)
+		out := ""
+		for i := 0; i < 2; i++ {
+			select {
+			case ch <- i:
+				out += "sent "
+			default:
+				out += "default"
+			}
+		}
+		return out
+	}},
+	{Name: "select-send-closed-panics", Allowed: []string{"panic: send on closed channel"}, Run: func() string {
+		return catch(func() string {
+			ch := make(chan int, 1)
+			close(ch)
+			select {
+			case ch <- 1:
+				return "sent"
+			default:
+				return "default"
+			}
+		})
+	}},
+	{Name: "select-two-ready", Allowed: []string{"a", "b"}, Run: func() string {
+		a := make(chan int, 1)
+		b := make(chan int, 1)
+		a <- 1
+		b <- 1
+		select {
+		case <-a:
+			return "a"
+		case <-b:
+			return "b"
+		}
+	}},
+	{Name: "select-coalescing-signal", Allowed: []string{"1", "2"}, Run: func() string {
+		// the dispatcher wake-up idiom: non-blocking sends into a 1-slot channel coalesce
+		sig := make(chan struct{}, 1)
+		done := make(chan int, 1)
+		go func() {
+			n := 0
+			for range sig {
+				n++
+			}
+			done <- n
+		}()
+		for i := 0; i < 2; i++ {
+			select {
+			case sig <- struct{}{}:
+			default:
+			}
+		}
+		close(sig)
+		return fmt.Sprint(<-done)
+	}},
+	{Name: "once", Allowed: []string{"1"}, Run: func() string {
+		var o sync.Once
+		var n atomic.Uint32
+		var wg sync.WaitGroup
+		for i := 0; i < 2; i++ {
+			wg.Add(1)
+			go func() { defer wg.Done(); o.Do(func() { n.Add(1) }) }()
+		}
+		wg.Wait()
+		return fmt.Sprint(n.Load())
+	}},
+	{Name: "message-passing", Allowed: []string{"1"}, Run: func() string {
+		data := 0
+		ch := make(chan struct{}, 1)
+		go func() { data = 1; ch <- struct{}{} }()
+		<-ch
+		return fmt.Sprint(data)
+	}},
+	{Name: "context-cancel-propagates", Allowed: []string{"ok"}, Run: func() string {
+		parent, cancel := context.WithCancel(context.Background())
+		child, cancel2 := context.WithCancel(parent)
+		defer cancel2()
+		done := make(chan struct{}, 1)
+		go func() { <-child.Done(); done <- struct{}{} }()
+		cancel()
+		<-done
+		if child.Err() == nil {
+			return "no error"
+		}
+		return "ok"
+	}},
+	{Name: "context-already-cancelled", Allowed: []string{"ok"}, Run: func() string {
+		parent, cancel := context.WithCancel(context.Background())
+		cancel()
+		child, cancel2 := context.WithCancel(parent)
+		defer cancel2()
+		<-child.Done()
+		return "ok"
+	}},
+	{Name: "context-cancel-twice", Allowed: []string{"ok"}, Run: func() string {
+		ctx, cancel := context.WithCancel(context.Background())
+		cancel()
+		cancel()
+		<-ctx.Done()
+		return "ok"
+	}},
+	{Name: "mutex-trylock", Allowed: []string{"false", "true"}, Run: func() string {
+		var mu sync.Mutex
+		done := make(chan struct{}, 1)
+		rel := make(chan struct{}, 1)
+		go func() { mu.Lock(); done <- struct{}{}; <-rel; mu.Unlock() }()
+		ok := mu.TryLock()
+		if ok {
+			mu.Unlock()
+		}
+		rel <- struct{}{}
+		<-done
+		return fmt.Sprint(ok)
+	}},
+	{Name: "mutex-deadlock-abba", Hangs: true, Allowed: []string{"ok", "deadlock"}, Run: func() string {
+		var a, b sync.Mutex
+		var wg sync.WaitGroup
+		wg.Add(2)
+		go func() { defer wg.Done(); a.Lock(); b.Lock(); b.Unlock(); a.Unlock() }()
+		go func() { defer wg.Done(); b.Lock(); a.Lock(); a.Unlock(); b.Unlock() }()
+		wg.Wait()
+		return "ok"
+	}},
+	{Name: "unlock-unlocked", ShimOnly: true, Allowed: []string{"panic: fatal error: sync: unlock of unlocked mutex"}, Run: func() string {
+		return catch(func() string {
+			var mu sync.Mutex
+			mu.Unlock()
+			return "no panic"
+		})
+	}},
+	{Name: "pool-get-after-put", Allowed: []string{"new", "same"}, Run: func() string {
+		p := sync.Pool{New: func() any { return new(int) }}
+		x := p.Get().(*int)
+		p.Put(x)
+		if p.Get().(*int) == x {
+			return "same"
+		}
+		return "new"
+	}},
+	{Name: "atomic-value", Allowed: []string{"<nil>", "7"}, Run: func() string {
+		var v atomic.Value
+		done := make(chan struct{}, 1)
+		go func() { v.Store(7); done <- struct{}{} }()
+		r := fmt.Sprint(v.Load())
+		<-done
+		return r
+	}},
+}
